@@ -2,6 +2,7 @@ package runtime
 
 import (
 	"fmt"
+	"google.golang.org/protobuf/encoding/protowire"
 	"google.golang.org/protobuf/proto"
 	"google.golang.org/protobuf/runtime/protoiface"
 	"io"
@@ -125,7 +126,20 @@ func MarshalInputToOptions(input protoiface.MarshalInput) proto.MarshalOptions {
 }
 
 func UnmarshalInputToOptions(input protoiface.UnmarshalInput) proto.UnmarshalOptions {
+	// carry the recursion budget into nested decodes: the message being decoded uses up one level
+	// of input.Depth (callers that leave Depth unset get the default budget). An exhausted budget
+	// is handed on as a negative limit, because proto.UnmarshalOptions reads 0 as "use the default";
+	// generated code refuses to descend into a nested message when the limit is negative.
+	limit := input.Depth
+	if limit <= 0 {
+		limit = protowire.DefaultRecursionLimit
+	}
+	limit--
+	if limit <= 0 {
+		limit = -1
+	}
 	return proto.UnmarshalOptions{
+		RecursionLimit:    limit,
 		NoUnkeyedLiterals: input.NoUnkeyedLiterals,
 		Merge:             true, // nested targets are either freshly allocated or must be merged into (proto.Unmarshal resets the top-level message itself)
 		AllowPartial:      true, // defaults to true as the required fields check is done after the unmarshalling
@@ -138,4 +152,5 @@ var (
 	ErrInvalidLength        = fmt.Errorf("proto: negative length found during unmarshaling")
 	ErrIntOverflow          = fmt.Errorf("proto: integer overflow")
 	ErrUnexpectedEndOfGroup = fmt.Errorf("proto: unexpected end of group")
+	ErrRecursionDepth       = fmt.Errorf("proto: exceeded max recursion depth")
 )
